@@ -623,6 +623,40 @@ def r10_8(chk, tier):
                                    'containers) counts the next input from the old depth' % (short, ctr), None, f['q'])
     chk.require(n >= 4, 'R10.8: only %d reset functions of depth-counting classes found' % n)
 
+def r10_9(chk, tier):
+    """An encoder helper that opens a container through the encoder's own begin function closes it through the matching end function."""
+    chk.rule('R10.9', 'composite values close what they open: an encoder member function that writes a composite value by calling the encoder\'s own '
+                      'visit_begin_array / visit_begin_object (a decimal fraction or bigfloat as a two-element array) reaches the matching '
+                      'visit_end_array / visit_end_object on every path that does not store an error; closing by hand (popping the stack) '
+                      'skips what the end function does - the depth counter stays one level up and later values are refused below the limit', floor=2)
+    n = 0
+    PAIRS = {'visit_begin_array': 'visit_end_array', 'visit_begin_object': 'visit_end_object', 'begin_array': 'end_array', 'begin_object': 'end_object'}
+    for unit in ('core', 'cbor', 'msgpack', 'ubjson', 'bson', 'csv'):
+        facts = F.load([unit], tier)
+        if unit not in chk.units: chk.units.append(unit)
+        for fn in U.one_per_inst([f for f in facts.functions if f.get('body') is not None and not f.get('dep') and 'encoder' in A.strip_targs(f.get('cls') or '').split('::')[-1]]):
+            if fn['n'] in PAIRS or fn['n'] in PAIRS.values(): continue
+            if 'begin_' in fn['n']: continue      # an opener in its own right (begin_array_with_tag): it leaves the container open by design
+            opens = [c for c in A.calls_in(fn['body'], no_lambda=True) if c.get('k') == 'CXXMemberCallExpr' and A.callee_name(c) in PAIRS and (A.strip(c.get('obj'), casts=True) or {}).get('k') == 'CXXThisExpr']
+            if not opens: continue
+            g = C.CFG(fn['body'])
+            chk.analysed(fn)
+            errs = [nd for nd in g.rpo if nd.kind == 'stmt' and isinstance(nd.ast, dict) and (U.assigned_member(nd.ast) or (None,))[0] == 'ec']
+            errs += [nd for nd in g.rpo if nd.kind == 'edge' and nd.label is True and isinstance(nd.ast, dict) and G.comparison(nd.ast) is None and any(y.get('k') == 'DeclRefExpr' and y.get('n') == 'ec' for y in A.walk(nd.ast))]
+            for i, c in enumerate(opens):
+                n += 1
+                want = PAIRS[A.callee_name(c)]
+                on = g.node_of(c)
+                closes = [nd for nd in g.rpo if nd.kind in ('stmt', 'cond', 'return') and isinstance(nd.ast, dict) and
+                          any(y.get('k') == 'CXXMemberCallExpr' and A.callee_name(y) == want and (A.strip(y.get('obj'), casts=True) or {}).get('k') == 'CXXThisExpr' for y in A.calls_in(nd.ast))]
+                site = U.site(fn, '%s#%d' % (A.callee_name(c), i + 1))
+                leak = on is not None and any(g.can_reach(s2, [g.exit_return], avoid=closes + errs) for s2 in on.succ)
+                if not leak: chk.ok('R10.9', site, {'class': A.strip_targs(fn.get('cls') or '').split('::')[-1], 'function': fn['n'], 'closes': len(closes)})
+                else:
+                    chk.fail('R10.9', site, fn['file'], c.get('l'), '%s::%s opens a container with %s() (line %s) and can return normally without %s(): whatever that function undoes (the nesting '
+                             'depth counter among it) stays as the open left it' % (A.strip_targs(fn.get('cls') or '').split('::')[-1], fn['n'], A.callee_name(c), c.get('l'), want), None, fn['q'])
+    chk.require(n >= 2, 'R10.9: only %d composite writers found in the encoders' % n)
+
 def run(chk, tier, only_rule=None):
     chk.explanation = EXPLANATION
     chk.not_decided = NOT_DECIDED
@@ -634,3 +668,4 @@ def run(chk, tier, only_rule=None):
     r10_6(chk, tier)
     r10_7(chk, tier)
     r10_8(chk, tier)
+    r10_9(chk, tier)
